@@ -89,6 +89,27 @@ CLAIMED["C13"] = ("proof",
     "positions, result kind) need the in-process server: covered by correspondence there, not by a theorem. Five registered types absent from the schema are a known finding.",
     "machine-checked proof in Coq + translators (registry, schema) + correspondence")
 
+CLAIMED["C03"] = ("proof",
+    "Gallina model of serializePacket / Encrypted.Serialize / DeserializeEncrypted / the unencrypted layout and the MTProto 1.0 key schedule, and a spec side (open_server, "
+    "seal_server) written from the protocol description; theorems: for every key, salt, session id, msg_id, seq_no, ack flag and body a conformant server opens the client's "
+    "packet to exactly those fields with fewer than 16 padding bytes, and the client opens every server-sealed packet; byte offsets of key id / msg_key / ciphertext; key "
+    "schedule for x = 0 and x = 8; unencrypted messages. SHA-1 and IGE are universally quantified functions with three stated premises. Tied to the code by byte-exact "
+    "comparison with the extracted model (Gallina SHA-1/AES) and an independent crypto/aes+crypto/sha1 reference.",
+    "DESIGN.md section 8 (C03)",
+    "Trusted: Coq kernel; extraction; harness incl. its reference envelope. Premises about SHA-1 (20 bytes) and IGE (length preserved, decryption inverts encryption on aligned "
+    "data), the latter two derived for textbook IGE over any inverting block cipher; AES itself enters only through them and through FIPS known-answer Examples.",
+    "machine-checked proof in Coq + byte-level correspondence (both directions)")
+
+CLAIMED["C04"] = ("proof",
+    "Same envelope model with an explicit Panic outcome at every Go panic site: acceptance implies the four checks (key id, msg_key = SHA1(decrypted header+body)[4..20], "
+    "declared length inside the data, server parity) and the message is exactly the decrypted fields; no panic for any packet and any auth key of at least 136 bytes; an "
+    "accepted packet carrying the msg_key of a sealed message is that message under an explicit no-collision hypothesis on the two strings involved (partial: 'every altered "
+    "packet is refused' needs an idealised hash). Tied to the code by fault enumeration on valid packets (every bit flip of short packets, every truncation, garbage under the "
+    "right key id, hostile declared lengths re-sealed with the key) with outcome classes compared against the extracted model.",
+    "DESIGN.md section 8 (C04)",
+    "Trusted: as C03. MTProto 1.0 does not authenticate padding: a flip that only garbles plaintext padding is accepted with the identical message (counted in the evidence).",
+    "machine-checked proof in Coq + fault-enumeration correspondence")
+
 PENDING_REASON = "check not built yet in this round (machinery under construction; see DESIGN.md section 9 order of work)"
 
 
@@ -133,7 +154,7 @@ def main():
         json.dump(m, f, indent=1)
 
 
-HOOK_COMMITS = ["8cc65cc", "33a3c78", "794403c", "a317da0"]
+HOOK_COMMITS = ["8cc65cc", "33a3c78", "794403c", "a317da0", "f05915b"]
 
 if __name__ == "__main__":
     main()
